@@ -2,6 +2,7 @@ package main
 
 import (
 	"errors"
+	"math/big"
 
 	"github.com/nspcc-dev/neo-go/pkg/core/transaction"
 )
@@ -54,6 +55,9 @@ func names(a, b *txDef) bool { // a carries a Conflicts attribute with b's hash
 
 // checkInv recomputes the property's invariant from outside on the real pool.
 func (r *runner) checkInv(line string, s *snapshot) {
+	if r.sc.malformed {
+		return
+	}
 	defs := r.sc.defs
 	in := map[int]bool{}
 	// each transaction at most once
@@ -110,8 +114,8 @@ func (r *runner) checkInv(line string, s *snapshot) {
 			sum[payerOfDef(defs[i])] += defs[i].tx.SystemFee + defs[i].tx.NetworkFee
 		}
 		for pk, v := range sum {
-			if v > r.fe.bals[pk] {
-				r.fail("solvency", "after %s: payer (%d,%d) has pooled fees %d > balance %d: %v", line, pk.p, pk.s, v, r.fe.bals[pk], s.list)
+			if big.NewInt(v).Cmp(r.fe.balance(pk)) > 0 {
+				r.fail("solvency", "after %s: payer (%d,%d) has pooled fees %d > balance %s: %v", line, pk.p, pk.s, v, r.fe.balance(pk), s.list)
 			}
 		}
 	}
@@ -139,6 +143,9 @@ func (r *runner) checkInv(line string, s *snapshot) {
 // transaction and drops, apart from conflicting transactions and a replaced oracle response,
 // only the lowest-priority entry, and only from a full pool.
 func (r *runner) checkAdd(line string, d *txDef, err error, before, after *snapshot) {
+	if r.sc.malformed {
+		return
+	}
 	defs := r.sc.defs
 	if err != nil {
 		if before.String() != after.String() || (!r.sc.drift && before.ver != "" && before.ver != after.ver) {
